@@ -68,3 +68,8 @@ func (wg *WeightedAuthorizationModelGraph) verifAssignWeightsForced() (bool, err
 
 	return true, wg.checkRelationsReachTerminalType()
 }
+
+// VerifFlags exposes the two cycle flags of CycleInformation to the verification harness.
+func (c CycleInformation) VerifFlags() (bool, bool) {
+	return c.hasCyclesAtCompileTime, c.canHaveCyclesAtRuntime
+}
